@@ -24,6 +24,9 @@ mod memory_accessor;
 mod test_runner;
 /// Miscellaneous utility methods
 mod utils;
+/// Verification probe, only compiled with `--cfg mos_verif`
+#[cfg(mos_verif)]
+mod verif_probe;
 
 #[derive(argh::FromArgs, PartialEq, Eq, Debug)]
 /// mos - https://mos.datatra.sh
@@ -124,6 +127,12 @@ fn run(args: &Args) -> MosResult<()> {
 fn main() {
     #[cfg(windows)]
     ansi_term::enable_ansi_support().unwrap();
+
+    #[cfg(mos_verif)]
+    if std::env::args().nth(1).as_deref() == Some("verif-probe") {
+        verif_probe::run();
+        return;
+    }
 
     let args: Args = argh::from_env();
 
